@@ -25,21 +25,7 @@ import (
 // parents.
 func VerifC08_Progress() {
 	o := verifRollOpts{progress: true, status: map[string]interface{}{}}
-	o.scope = rt.Choice("scope", 3)
-	o.method = verifC07Method()
-	if rt.Tier() == 0 {
-		o.n, o.nOld = 2, 1
-		o.named = o.scope == verifScopeClusterNS
-		o.chk = rt.Choice("check", 2) * 4
-		o.reversed = true
-	} else {
-		o.n, o.nOld = 3, 2
-		if o.scope != verifScopeCluster {
-			o.named = verifC07Bool("named-group")
-		}
-		o.chk = rt.Choice("check", 5)
-		o.reversed = verifC07Bool("hook-order-reversed")
-	}
+	verifRollTierOpts(&o)
 	s := verifRollBuild(o)
 
 	// the hypothesis of the lemma (health of the children with latest is
